@@ -272,3 +272,31 @@ func Harness_C12_order_named_r3()     { c12Order(3, []int{2, 3}, true) }
 func Harness_C12_repeat_r2()          { c12Repeat(2, []int{0, 2, 4}, true) }
 func Harness_C12_repeat_r3()          { c12Repeat(3, nil, true) }
 func Harness_C12_order_end_r3() { c12Order(3, []int{2}, false) }
+
+// payload: the same problem arrives from two differently named builds with
+// different severities (one build ignores it through a directive); which copy
+// represents the merged problem must not depend on the order of the runs or
+// on a repeated run.
+func Harness_C12_order_payload_r2() {
+	d := c12Desc{file: "a.go", line: 3, col: 5, eline: 3, msg: "m", cat: "SA1000", strat: c12Strat()}
+	names := []string{"linux", "windows"}
+	sevs := []severity{severityError, severityWarning, severityIgnored}
+	var base []run
+	for r := 0; r < 2; r++ {
+		var res lintResult
+		res.CheckedFiles = []string{"a.go"}
+		x := c12Diag(d, names[r])
+		x.Severity = sevs[c12Choose(3)]
+		res.Diagnostics = []diagnostic{x}
+		base = append(base, runFromLintResult(res))
+	}
+	out := c12Print([]run{base[0], base[1]})
+	out2 := c12Print([]run{base[1], base[0]})
+	vobserve("out", out)
+	vassert(out == out2, "result does not depend on the order of the runs (same problem, different severities)")
+	k := c12Choose(2)
+	out3 := c12Print([]run{base[0], base[1], base[k]})
+	out4 := c12Print([]run{base[k], base[0], base[1]})
+	vassert(out == out3 && out == out4, "repeating a run does not change the result (same problem, different severities)")
+	vreach("end")
+}
